@@ -520,6 +520,28 @@ def run(ctx):
                 for key, what in bad:
                     ctx.violation(key, what, {'function': 'class', 'class': cname, 'data': vlib.hexv(x), 'cfg': cfg, 'NFFT': NFFT, 's1': s1.hex(), 's2': s2.hex()})
 
+    # ---------------- every NAMED window once per class that takes one (a change may concern one name only)
+    from props._estimators import ALL_WINDOWS
+    for wi, wname in enumerate(ALL_WINDOWS):
+        for cname in ('Periodogram', 'pcorrelogram', 'pdaniell'):
+            if cname not in O.CLASS_NAMES:
+                continue
+            cplx = bool(wi % 2); N = 20 + wi % 9; x, style = O.draw_data(rng, N, cplx)
+            cfg = O.draw_cfg(rng, cname, N); cfg['window'] = wname; NFFT = draw_nfft(rng, N)
+            s1 = [1.0, 4.0, 0.25][wi % 3]; s2 = [8.0, 0.5, 44100.0][wi % 3]
+            try:
+                with np.errstate(all='ignore'):
+                    bad = class_clauses(cname, x, cfg, NFFT, s1, s2)
+            except (ValueError, AssertionError, IndexError, np.linalg.LinAlgError, ZeroDivisionError) as e:
+                bad = [('raises/%s/window_%s' % (cname, wname), '%s with window %r raised %s: %s' % (cname, wname, type(e).__name__, str(e)[:80]))]
+            if bad is None:
+                ctx.count('search/windows/nonfinite/' + cname); continue
+            ctx.count('search/windows/' + cname)
+            ctx.case(('search-window', cname, wname, x.tobytes(), NFFT, s1, s2), nontrivial=True,
+                     sample={'class': cname + ' (every named window)', 'window': wname, 'N': N, 'NFFT': NFFT, 'sampling': [s1, s2]} if wi == 9 else None)
+            for key, what in bad:
+                ctx.violation(key + '/window_' + wname, what, {'function': 'class', 'class': cname, 'data': vlib.hexv(x), 'cfg': cfg, 'NFFT': NFFT, 's1': s1.hex(), 's2': s2.hex()})
+
     # ---------------- results depend on the VALUES given only: call protocol (repeat, aliasing, buffer reuse, memory layout, integer / single-precision dtypes)
     from props import _purity
     _purity.run_protocol(ctx, ['arma2psd'])
